@@ -446,7 +446,7 @@ def fam_access(rng):
         ops = []
         for i in range(rng.randrange(1, 4)):
             p = t * R + i
-            ops += [{"op": "acc_load", "c": 0, "p": p, "kind": rng.randrange(6)}, {"op": "deref_p", "p": p}]
+            ops += [{"op": "acc_load", "c": 0, "p": p, "kind": rng.randrange(9)}, {"op": "deref_p", "p": p}]
             if rng.random() < 0.4:
                 ops += writer_ops(rng, t, 0, 1)
                 ops.append({"op": "deref_p", "p": p})
@@ -471,7 +471,18 @@ def fam_cache2(rng):
     return prog_with_setup(rng, th, strategy=rng.choice(["default", "nofast"]), reuse="lifo", pnull=0.0)
 
 
+def fam_serde(rng):
+    """C20 under concurrency: the container is serialized while writers replace the value"""
+    th = []
+    for t in range(1, 1 + rng.choice([1, 2])):
+        th.append([{"op": "ser", "c": 0} for _ in range(rng.randrange(1, 4))])
+    for t in range(3, 3 + rng.choice([1, 2])):
+        th.append(writer_ops(rng, t, 0, rng.randrange(1, 4)))
+    return prog_with_setup(rng, th, reuse=rng.choice(["never", "lifo"]))
+
+
 FAMILIES = {
+    "serde": fam_serde,
     "cache2": fam_cache2,
     "access": fam_access,
     "adv": fam_adv,
@@ -557,7 +568,9 @@ def sandwich(tier="quick", start_id=0):
                          ("cold ld/st/nofast", ld, st, "nofast", 36, 60), ("ld2/st/nofast", warm + ld + ld, warm2 + st + st, "nofast", 40, 80)]
     # A-B-A on the stored pointer while a compare_and_swap / rcu is in flight (the same value is stored back)
     aba = warm2 + [{"op": "load_full", "c": 0, "h": 44}, {"op": "store", "c": 0, "v": new()}, {"op": "store", "c": 0, "v": {"h": 44}}]
-    pairs_q += [("cas/aba", warm + cas, aba, "default", 40, 2), ("rcu/aba", warm + rcu, aba, "default", 40, 2)]
+    ser = [{"op": "ser", "c": 0}]
+    pairs_q += [("cas/aba", warm + cas, aba, "default", 40, 2), ("rcu/aba", warm + rcu, aba, "default", 40, 2),
+                ("ser/st", warm + ser, warm2 + st, "default", 24, 2)]
     pairs_t += [("cas/aba", warm + cas, aba, "default", 60, 120), ("rcu/aba", warm + rcu, aba, "default", 60, 120),
                 ("cas/aba/nofast", warm + cas, aba, "nofast", 60, 120)]
     cache_a = [{"op": "cache_new", "x": 0, "c": 0}, {"op": "cache_load", "x": 0}, {"op": "cache_load", "x": 0}, {"op": "cache_load", "x": 0}]
